@@ -57,7 +57,8 @@ func (o *ParsedOpcode) IsDisabled() bool {
 func (o *ParsedOpcode) RequiresTx() bool {
 	switch o.op.val {
 	case bscript.OpCHECKSIG, bscript.OpCHECKSIGVERIFY,
-		bscript.OpCHECKMULTISIG, bscript.OpCHECKMULTISIGVERIFY, bscript.OpCHECKSEQUENCEVERIFY:
+		bscript.OpCHECKMULTISIG, bscript.OpCHECKMULTISIGVERIFY, bscript.OpCHECKSEQUENCEVERIFY,
+		bscript.OpCHECKLOCKTIMEVERIFY:
 		return true
 	default:
 		return false
